@@ -43,6 +43,7 @@ SIG_DIM1 = "|dim1-raises"
 SIG_PROPMEAN = "|proposal-nonzero-mean"
 SIG_NOTCENTRED = "|proposal-not-centred"
 SIG_DTYPE = "|initial-point-dtype"
+SIG_GRADBUF = "|gradient-buffer-aliased"
 
 
 # ------------------------------------------------------------------------------------------------
@@ -112,6 +113,15 @@ class Tgt:
         raise RuntimeError("lin targets are cuqi objects")
 
     def g(self, x):
+        v = self._g(x)
+        if self.spec.get("gradbuf"):           # the adjoint-code pattern: fill and return one persistent work array
+            if getattr(self, "_gbuf", None) is None:
+                self._gbuf = np.empty_like(v)
+            self._gbuf[...] = v
+            return self._gbuf
+        return v
+
+    def _g(self, x):
         x = np.asarray(x, dtype=float).reshape(-1)
         if self.kind == "quad":
             return -(self.P @ (x - self.m))
@@ -290,7 +300,7 @@ class Driver:
             else:
                 self.target = cuqi.distribution.UserDefinedDistribution(dim=T.dim, logpdf_func=T.f, gradient_func=T.g)
             self.eval_f = lambda x: (T._f(x), T.calls.pop())[0]
-            self.eval_g = T.g
+            self.eval_g = T._g
 
     def _build_sampler(self, scale, x0):
         cuqi = self.cuqi
@@ -899,6 +909,8 @@ def build_case(ctx, spec):
         if site == "E.CWMH" and s in ("|state-cache", "|accept-rule") and opts.get("x0form") in ("int", "float32") \
                 and "tune()" not in msg:
             s = SIG_DTYPE
+        if T.spec.get("gradbuf") and site in ("E.MALA", "E.ULA") and s in ("|state-cache", "|accept-rule") and "tune()" not in msg:
+            s = SIG_GRADBUF
         if fail is None:
             fail, sig = msg, info["sig"] + s
 
@@ -1217,7 +1229,7 @@ def gen_spec(ctx, site, fam, hc, hist, idx, dim=None):
     if kind == "pcn":
         if fam == "lin":
             tspec["del"], tspec["m0"] = 0.0, [0] * d
-        mean = [0.0] * d if idx % 3 != 2 else [float(rng.randint(-3, 3)) or 2.0 for _ in range(d)]
+        mean = [0.0] * d if idx % 3 != 2 else mean_vec(rng, d, "mixed" if (idx % 2 == 0 and d >= 2) else "nonzero", (-3, -1, 2, 3))
         prior = {"mean": mean, "cov": rng.choice([1.0, 4.0, 0.25])}
     # scale
     if kind in ("mh",):
@@ -1393,6 +1405,9 @@ def option_cells():
             cells.append((site, "reload-of-zero-logd", {}, {"zero_reload": True}))
         for nb in (1, 9, 10, 11):
             cells.append((site, "warmup-n=%d" % nb, {}, {"warm_n": nb}))
+    for site in ("E.MALA", "L.MALA", "E.ULA", "L.ULA"):
+        cells.append((site, "gradient=reused-buffer", {}, {"gradbuf": True}))
+        cells.append((site, "gradient=reused-buffer,after-step", {}, {"gradbuf": True, "hist": "prestep"}))
     for site in ("E.MH", "L.MH"):
         cells.append((site, "proposal=uniform-symmetric", {"proposal": {"family": "uniform", "sym": True}}, {}))
         cells.append((site, "proposal=uniform-asymmetric", {"proposal": {"family": "uniform", "sym": False}}, {}))
@@ -1405,6 +1420,7 @@ def option_cells():
         cells.append((site, "proposal=gauss-vector", {"proposal": {"mean": 0, "cov": "vector"}}, {}))
         cells.append((site, "proposal=gauss-matrix", {"proposal": {"mean": 0, "cov": "matrix"}}, {}))
         cells.append((site, "proposal=gauss-nonzero-mean", {"proposal": {"mean": 1, "cov": "matrix"}}, {}))
+        cells.append((site, "proposal=gauss-mean-mixed-zero-entries", {"proposal": {"mean": "mixed", "cov": "vector"}}, {"dim": 0}))
         cells.append((site, "scale=vector", {}, {"vscale": True}))
     cells.append(("E.CWMH", "proposal=normal-locscale", {"proposal": "locscale"}, {}))
     for pr in ("locscale", "meanstd", "callable"):
@@ -1413,11 +1429,23 @@ def option_cells():
         for form in ("scalar", "vector", "matrix", "normal"):
             for mean in (0, 1):
                 cells.append((site, "prior=%s,mean%s0" % (form, "=" if mean == 0 else "!="), {}, {"prior_form": form, "prior_mean": mean}))
+            cells.append((site, "prior=%s,mean-mixed-zero-entries" % form, {}, {"prior_form": form, "prior_mean": "mixed", "dim": 0}))
     cells.append(("L.pCN", "target=tuple", {"pcn_tuple": True}, {}))
     for site in ("E.MH", "L.MH", "E.CWMH", "L.CWMH", "E.MALA", "L.MALA", "E.ULA", "L.ULA"):
         for k in (-20, 20):
             cells.append((site, "magnitude=2^%d" % k, {}, {"mag": k}))
     return cells
+
+
+def mean_vec(rng, d, pattern, choices=(-2, 1, 3)):
+    if pattern in (0, "zero"):
+        return [0.0] * d
+    v = [float(rng.choice(choices)) for _ in range(d)]
+    if pattern == "mixed" and d >= 2:
+        zeros = rng.sample(range(d), rng.randint(1, d - 1))
+        for i in zeros:
+            v[i] = 0.0
+    return v
 
 
 def spd(rng, d, form):
@@ -1443,8 +1471,15 @@ def option_cases(ctx):
                 hist = "fresh"
             if extra.get("warm_n"):
                 hist = "warmup"
-            spec = gen_spec(ctx, site, fam, None, hist, idx, dim=extra.get("dim"))
+            if extra.get("hist"):
+                hist = extra["hist"]
+            dim_ = extra.get("dim")
+            if dim_ == 0:
+                dim_ = rng.choice([2, 3])
+            spec = gen_spec(ctx, site, fam, None, hist, idx, dim=dim_)
             d = len(spec["x0"])
+            if extra.get("gradbuf"):
+                spec["target"]["gradbuf"] = True
             if extra.get("warm_n"):
                 n_ = extra["warm_n"]
                 if SITES[site]["iface"] == "leg":
@@ -1487,7 +1522,7 @@ def option_cases(ctx):
                 if not sym_:
                     spec["ustrat"] = "between"
             elif isinstance(o.get("proposal"), dict):
-                o["proposal"] = {"mean": [0.0] * d if o["proposal"]["mean"] == 0 else [float(rng.choice([-1, 1, 2])) for _ in range(d)],
+                o["proposal"] = {"mean": mean_vec(rng, d, {0: "zero", 1: "nonzero"}.get(o["proposal"]["mean"], o["proposal"]["mean"]), (-1, 1, 2)),
                                  "cov": spd(rng, d, o["proposal"]["cov"])}
                 if any(o["proposal"]["mean"]):
                     spec["ustrat"] = "between"
@@ -1506,7 +1541,7 @@ def option_cases(ctx):
                 spec["hist"]["type"] = "fresh"
             if extra.get("prior_form"):
                 form = extra["prior_form"]
-                mean = [0.0] * d if extra["prior_mean"] == 0 else [float(rng.choice([-2, 1, 3])) for _ in range(d)]
+                mean = mean_vec(rng, d, {0: "zero", 1: "nonzero"}.get(extra["prior_mean"], extra["prior_mean"]))
                 if form == "normal":
                     spec["prior"] = {"mean": mean, "form": "normal", "std": [rng.choice([0.5, 1.0, 2.0]) for _ in range(d)]}
                 else:
@@ -1635,25 +1670,74 @@ def legacy_adapt_cases(ctx):
 # ------------------------------------------------------------------------------------------------
 # short chains through sample(): recorded points, acceptance flags and the final cached state
 # ------------------------------------------------------------------------------------------------
+def chain_oracle(kind, T, scale, x_init, zs, us, pts, prior):
+    """every recorded transition of a chain, judged on its own from the previously RECORDED point with the documented kernel
+    (target and gradient from exact Fractions): expected next point = proposal if log u <= min(0, MH log-ratio) else the
+    previous point.  Returns None or a description of the first transition that deviates."""
+    prev = np.array(x_init, dtype=float)
+    s = scale
+    for k, (z, u, rec) in enumerate(zip(zs, us, pts)):
+        z = np.array(z, dtype=float)
+        xq = fr(prev)
+        a = T.F(xq)
+        if kind == "mh":
+            xs = prev + s * z
+        elif kind == "pcn":
+            xs = z.copy()                                   # scale 1, zero-mean unit prior: the proposal is the prior draw
+        else:
+            g0 = np.array([float(v) for v in T.G(xq)])
+            xs = prev + 0.5 * s * g0 + math.sqrt(s) * z
+        b = T.F(fr(xs))
+        lu = math.log(u[0]) if u[0] > 0 else -math.inf
+        exp_acc = None
+        if is_bad(b) or b == "pinf":
+            exp_acc = False
+        elif not isinstance(a, str):
+            rho = float(b - a)
+            if kind == "mala":
+                g1 = np.array([float(v) for v in T.G(fr(xs))])
+                fwd = -0.5 * float(np.sum((xs - prev - 0.5 * s * g0) ** 2)) / s
+                bwd = -0.5 * float(np.sum((prev - xs - 0.5 * s * g1) ** 2)) / s
+                rho += bwd - fwd
+            thr = min(0.0, rho)
+            if abs(lu - thr) > 1e-7 * (1 + abs(thr)) or (lu == 0.0 and rho > 1e-7):
+                exp_acc = lu <= thr
+        if exp_acc is not None:
+            want = xs if exp_acc else prev
+            if not vclose(rec, fr(want), 1e-9):
+                return ("transition %d of the chain: from %s with noise %s and u=%r the documented kernel %s (next point %s), the "
+                        "recorded next point is %s" % (k + 1, prev.tolist(), z.tolist(), u[0], "accepts" if exp_acc else "rejects",
+                                                       want.tolist(), np.asarray(rec).tolist()))
+        prev = np.array(rec, dtype=float)
+    return None
+
+
 def chain_cases(ctx):
     rng = ctx.rng
     st = guards(ctx)
     out = []
-    for site in ("E.MH", "E.CWMH", "E.PCN", "E.MALA", "L.MH", "L.pCN", "L.MALA"):
+    variants = [(site, False) for site in ("E.MH", "E.CWMH", "E.PCN", "E.MALA", "L.MH", "L.pCN", "L.MALA")]
+    variants += [("E.MALA", True), ("L.MALA", True)]            # gradient returned in a reused work buffer
+    for site, gradbuf in variants:
         info = SITES[site]
         kind, legacy = info["kind"], info["iface"] == "leg"
-        for rep in range(ctx.n(3, 40)):
+        for rep in range(ctx.n(4 if gradbuf else 3, 40)):
             d = rng.choice([2, 3] if kind == "cw" else [1, 2])
             fam = "quad" if kind == "mala" else rng.choice(["quad", "quart"])
-            hole = rng.choice([None, None, "nan", "ninf"])
+            hole = rng.choice([None, None, "nan", "ninf"]) if not gradbuf else None
             tspec = gen_target(rng, fam, d, hole)
+            if gradbuf:
+                tspec["gradbuf"] = True
             T = Tgt(tspec)
             prior = {"mean": [0.0] * d, "cov": 1.0} if kind == "pcn" else None
             scale = {"mh": 0.5, "cw": [0.5] * d, "pcn": 1.0, "mala": 0.25}[kind]
             x0 = [dy(rng, -2, 1, 4) for _ in range(d)]
-            n = 3
+            n = 7 if gradbuf else 3
             zs = [[dy(rng, -3, 3, 4) for _ in range(d)] for _ in range(n)]
             uu = [[rng.choice([1.0, 0.75, 0.5, 0.25, 0.03125]) for _ in range(d if kind == "cw" else 1)] for _ in range(n)]
+            if gradbuf:
+                zs = [[dy(rng, -2, 2, 4) for _ in range(d)] for _ in range(n)]
+                uu = [[rng.choice([0.9, 0.75, 0.5, 0.35, 0.2, 0.1])] for _ in range(n)]
             drv = Driver(site, T, scale, x0, prior=prior)
             zq, uq = [np.array(z_) for z_ in zs], [u_ for us_ in uu for u_ in us_]
             rets = []
@@ -1718,10 +1802,16 @@ def chain_cases(ctx):
                 xf, ldf, grf = drv.state()
                 obs_rec = clist(["(%s, %s)" % (cqvec(p), clist([cbool(b) for b in a_])) for p, a_ in zip(pts, accs)])
             # oracle: every recorded point's cached value is the target's value; final cache consistent
-            fail = None
+            fail, fsig = None, "|state-cache"
             ef = T.F(fr(xf))
             if not close(ldf, ef):
                 fail = "after sample(%d) the cached log-density %r is not the target's value %r at the final point" % (n, ldf, Fval(ef))
+            if fail is None and kind in ("mh", "pcn", "mala"):
+                fail = chain_oracle(kind, T, scale, x_init, zs[:ntr], uu[:ntr], pts, prior)
+                fsig = SIG_GRADBUF if (gradbuf and not legacy) else "|chain-transition"
+            if fail is None and kind == "mala" and not legacy and not vclose(grf, T.G(fr(xf))):
+                fail = "after sample(%d) the cached gradient %s is not the target's gradient at the final point" % (n, grf.tolist())
+                fsig = SIG_GRADBUF if gradbuf else "|state-cache"
             tolc = "0" if all(T.exact_at(fr(p)) for p in [x_init] + pts) and (kind != "mala" or d == 1) else "tol9"
             if legacy and obs_rec is None:
                 expr = "check_chain_pts %s %s %s %s %s %s %s %s" % (tolc, T.coq(), kq, scq, cstate(x_init, ld_init, gr_init), draws,
@@ -1730,8 +1820,8 @@ def chain_cases(ctx):
                 expr = "check_chain %s %s %s %s %s %s %s %s" % (tolc, T.coq(), kq, scq, cstate(x_init, ld_init, gr_init), draws,
                                                                cstate(xf, ldf, grf), obs_rec)
             meta = {"op": "chain", "site": site, "target": tspec, "prior": prior, "scale": scale, "x0": x0, "zs": zs, "us": uu, "n": n}
-            out.append(Case(expr=expr, meta=_jsonable(meta), cell="%s/chain/%s" % (site, T.kind), kind="EXACT", impl_fail=fail,
-                            signature=(info["sig"] + "|state-cache") if fail else ""))
+            out.append(Case(expr=expr, meta=_jsonable(meta), cell="%s/chain/%s%s" % (site, T.kind, "+gradbuf" if gradbuf else ""), kind="EXACT",
+                            impl_fail=fail, signature=(info["sig"] + fsig) if fail else ""))
     return out
 
 
